@@ -4,6 +4,7 @@ CONSTANTS
   DirOf <- MC_DirOf
   Dirs <- MC_Dirs
   Requires <- MC_Requires
+  Reach <- ReachOf
   Configs <- MC_Configs
   SerKey <- MC_SerKey
   Eff <- MC_Eff
